@@ -255,6 +255,39 @@ def ev(S, F, x, asg, tabs=None):
                     if isinstance(f, tuple) and f and f[0] == "fn":
                         return ("app", f[1], a)
                     return ("app", f, a)
+                def apply0(f):
+                    if isinstance(f, tuple) and f and f[0] == "closure":
+                        cb_ = F.fn(f[1])
+                        if cb_ is not None and cb_.mir is not None:
+                            S3 = sym.Sym(cb_)
+                            sub3 = dict(asg, params={1: f[2]}, _depth=asg.get("_depth", 0) + 1)
+                            sub3.pop("subst", None)
+                            return run(S3, F, S3.paths(), sub3, tabs)
+                    return ("app", f, ())
+                if short == "and_then" and v0[0] in ("Some", "Ok"):
+                    return apply(vals[1], v0[1])
+                if short == "and_then" and v0[0] in ("None", "Err"):
+                    return v0
+                if short == "ok_or_else" and v0[0] in ("Some", "None"):
+                    return ("Ok", v0[1]) if v0[0] == "Some" else ("Err", apply0(vals[1]))
+                if short == "or_else" and v0[0] in ("Some", "Ok"):
+                    return v0
+                if short == "or_else" and v0[0] == "Err":
+                    return apply(vals[1], v0[1])
+                if short == "or_else" and v0[0] == "None":
+                    return apply0(vals[1])
+                if short == "unwrap_or_else" and v0[0] in ("Some", "Ok"):
+                    return v0[1]
+                if short == "unwrap_or_else" and v0[0] == "Err":
+                    return apply(vals[1], v0[1])
+                if short == "unwrap_or_else" and v0[0] == "None":
+                    return apply0(vals[1])
+                if short == "filter" and v0[0] == "None":
+                    return v0
+                if short == "filter" and v0[0] == "Some":
+                    keep = apply(vals[1], v0[1])
+                    if isinstance(keep, int):
+                        return v0 if keep else ("None",)
                 if short == "ok_or" and v0[0] in ("Some", "None"):
                     return ("Ok", v0[1]) if v0[0] == "Some" else ("Err", vals[1])
                 if short == "ok" and v0[0] in ("Ok", "Err"):
